@@ -168,6 +168,14 @@ def param_signature_cases():
             rows.append((f"wishbone.Arbiter(aw={aw},dw={dw},gran={g},features={fs})",
                          lambda aw=aw, dw=dw, g=g, fs=fs: wishbone.Arbiter(addr_width=aw, data_width=dw, granularity=g, features=fs), "bus", "initiator",
                          lambda aw=aw, dw=dw, g=g, fs=fs: wishbone.Signature(addr_width=aw, data_width=dw, granularity=g, features=fs)))
+    # … the feature set given as a one-shot iterable (e.g. filtered from another bus's features)
+    for fs in [("err",), ("lock", "cti"), tuple(FEATS)]:
+        rows.append((f"wishbone.Decoder(aw=4,dw=32,gran=8,features=<generator over {fs}>)",
+                     lambda fs=fs: wishbone.Decoder(addr_width=4, data_width=32, granularity=8, features=(f for f in fs)), "bus", "target",
+                     lambda fs=fs: wishbone.Signature(addr_width=4, data_width=32, granularity=8, features=fs)))
+        rows.append((f"wishbone.Arbiter(aw=4,dw=32,gran=8,features=<generator over {fs}>)",
+                     lambda fs=fs: wishbone.Arbiter(addr_width=4, data_width=32, granularity=8, features=(f for f in fs)), "bus", "initiator",
+                     lambda fs=fs: wishbone.Signature(addr_width=4, data_width=32, granularity=8, features=fs)))
     for cdw, wdw, caw in itertools.product([8, 16], [8, 16, 32, 64], [1, 2, 3, 6]):
         rb = (wdw // cdw).bit_length() - 1
         if wdw < cdw or caw < rb:
